@@ -240,21 +240,25 @@ def check(ctx):
     proved = ctx.prove("props/C17.v", ["proofs/CompoundFacts.v", "proofs/CompoundGenNested.v", "proofs/CompoundGenContract.v"])
     ctx.build(["model/Compound.vo", "model/Corr.vo"])
     n = (60 if ctx.quick else 1500) * (1 if proved else 3)
-    res = cc.selftest(n, ctx.seed + 17, tag="c17")
-    ctx.count(res["cases"], res["cases"] - res["outcomes"].get("vars:value", 0))
-    ctx.notes["correspondence"] = {k: res[k] for k in ("scenarios", "cases", "per_operation", "outcomes", "lp_calls", "mismatches", "canary_detected")}
-    if not res["canary_detected"]:
-        ctx.machinery_failure("the canary mismatch was not reported by the Coq comparison")
-    for e in res["coq_errors"]:
-        ctx.broke("correspondence:compound", "cases file failed: " + str(e))
-    for m in res["first_mismatches"]:
-        ctx.broke("correspondence:compound", f"model/Compound.v and the implementation disagree on {m}")
+    try:
+        res = cc.selftest(n, ctx.seed + 17, tag="c17")
+        ctx.count(res["cases"], res["cases"] - res["outcomes"].get("vars:value", 0))
+        ctx.notes["correspondence"] = {k: res[k] for k in ("scenarios", "cases", "per_operation", "outcomes", "lp_calls", "mismatches", "canary_detected")}
+        if not res["canary_detected"]:
+            ctx.machinery_failure("the canary mismatch was not reported by the Coq comparison")
+        for e in res["coq_errors"]:
+            ctx.broke("correspondence:compound", "cases file failed: " + str(e))
+        for m in res["first_mismatches"]:
+            ctx.broke("correspondence:compound", f"model/Compound.v and the implementation disagree on {m}")
+    except (SystemExit, Exception) as e:  # noqa: BLE001  a stage that cannot run any more is a broken correspondence; the search below still runs
+        ctx.broke("correspondence:compound", "the model-correspondence stage stopped: " + repr(e)[:1200])
     rng = random.Random(ctx.seed + 170)
     nsem = (120 if ctx.quick else 3000)
     for k in range(nsem):
         sc = cc.rand_scenario(rng)
-        semantic_oracle(ctx, sc)
-        contract_level(ctx, rng, sc)
+        info = lambda sc=sc: {"scenario": {kk: str(v)[:600] for kk, v in sc.items()}}     # noqa: E731
+        ctx.attempt("compound", info, lambda: semantic_oracle(ctx, sc))
+        ctx.attempt("compound", info, lambda: contract_level(ctx, rng, sc))
         if k < 1:
             ctx.sample({kk: (str(v)[:400]) for kk, v in sc.items()})
     ctx.count(nsem, nsem)
